@@ -13,21 +13,40 @@ theorem steps_idle (b : Bool) (n : Nat) (σ : St) (h : σ.pc = .idle) : steps b 
     show steps b k (step b σ) = σ
     rw [this]; exact ih
 
-theorem setTimerH_dirty (σ : St) (t : Time) : (setTimerH σ t).dirty = σ.dirty := by
+/-- the three configuration/ghost fields `dirty`, `deferredFlag`, `reschedBug` as a triple -/
+def flags (σ : St) : Bool × Bool × Bool := (σ.dirty, σ.deferredFlag, σ.reschedBug)
+
+theorem flags_eq {a b : St} (h : flags a = flags b) :
+    a.dirty = b.dirty ∧ a.deferredFlag = b.deferredFlag ∧ a.reschedBug = b.reschedBug := by
+  unfold flags at h; simpa using h
+
+theorem setTimerH_flags (σ : St) (t : Time) : flags (setTimerH σ t) = flags σ := by
   unfold setTimerH; split
   · rfl
   · split <;> rfl
 
+theorem handlerBody_flags (b : Bool) (sync : Option Fin) (σ : St) :
+    flags (handlerBody b sync σ) = flags σ := by
+  unfold handlerBody
+  simp only
+  split
+  · rfl
+  · split
+    · rfl
+    · split
+      · exact setTimerH_flags _ _
+      · split <;> rfl
+
+theorem finish_flags (σ : St) (fin : Fin) : flags (finish σ fin) = flags σ := by
+  cases fin <;> rfl
+
 theorem handler_dirty (b : Bool) (σ : St) : (handler b σ).dirty = σ.dirty := by
   unfold handler
   split
-  · exact setTimerH_dirty _ _
-  · simp only
-    split
+  · split
+    · exact (flags_eq (setTimerH_flags _ _)).1
     · rfl
-    · split
-      · rfl
-      · exact setTimerH_dirty _ _
+  · exact (flags_eq (handlerBody_flags b none σ)).1
 
 theorem tick_flags (b : Bool) (σ : St) (d : Int) :
     (σ.dirty = true → (tick b σ d).dirty = true) ∧
@@ -43,18 +62,59 @@ theorem tick_flags (b : Bool) (σ : St) (d : Int) :
         · rw [handler_dirty b _]; simp [h]
         · rw [handler_dirty b _]; simp [h]
 
-theorem step_flags (b : Bool) (σ : St) : (step b σ).dirty = σ.dirty := by
+/-- a statement group changes none of the flags, except that leaving a critical section consumes
+`timeout_deferred` -/
+theorem step_flags' (b : Bool) (σ : St) :
+    (step b σ).dirty = σ.dirty ∧ (step b σ).reschedBug = σ.reschedBug ∧
+    ((step b σ).deferredFlag = true → σ.deferredFlag = true) := by
+  have hfin : ∀ (τ : St) (fin : Fin), (finish τ fin).dirty = τ.dirty ∧ (finish τ fin).reschedBug = τ.reschedBug ∧
+      (finish τ fin).deferredFlag = τ.deferredFlag := by
+    intro τ fin; cases fin <;> exact ⟨rfl, rfl, rfl⟩
+  have hleave : ∀ (fin : Fin), (leave σ fin).dirty = σ.dirty ∧ (leave σ fin).reschedBug = σ.reschedBug ∧
+      ((leave σ fin).deferredFlag = true → σ.deferredFlag = true) := by
+    intro fin; unfold leave
+    split
+    · rename_i h; exact ⟨rfl, rfl, fun _ => h⟩
+    · obtain ⟨f1, f2, f3⟩ := hfin { σ with inCrit := false } fin
+      exact ⟨f1, f2, fun hh => by rw [f3] at hh; exact hh⟩
+  have hbody : ∀ (sync : Option Fin), (handlerBody b sync σ).dirty = σ.dirty ∧
+      (handlerBody b sync σ).reschedBug = σ.reschedBug ∧ (handlerBody b sync σ).deferredFlag = σ.deferredFlag := by
+    intro sync
+    obtain ⟨g1, g2, g3⟩ := flags_eq (handlerBody_flags b sync σ)
+    exact ⟨g1, g3, g2⟩
   unfold step
-  split <;> (repeat' split) <;>
-    (first | rfl | (simp only [apply_ite St.dirty, ite_self]) | simp [throwCtor])
+  split
+  case h_7 => exact hleave _
+  case h_14 => exact hleave _
+  case h_16 =>
+    split
+    · simp only
+      split
+      · obtain ⟨f1, f2, f3⟩ := hfin (handlerBody b (some _) σ) _
+        obtain ⟨g1, g2, g3⟩ := hbody (some _)
+        exact ⟨f1.trans g1, f2.trans g2, fun hh => by rw [f3, g3] at hh; exact hh⟩
+      · obtain ⟨g1, g2, g3⟩ := hbody (some _)
+        exact ⟨g1, g2, fun hh => by rw [g3] at hh; exact hh⟩
+    · obtain ⟨f1, f2, f3⟩ := hfin σ _
+      exact ⟨f1, f2, fun hh => by rw [f3] at hh; exact hh⟩
+  case h_18 =>
+    obtain ⟨f1, f2, f3⟩ := hfin σ _
+    exact ⟨f1, f2, fun hh => by rw [f3] at hh; exact hh⟩
+  all_goals
+    (repeat' split) <;>
+    (first | exact ⟨rfl, rfl, fun h => h⟩
+           | (simp only [apply_ite St.dirty, apply_ite St.reschedBug, apply_ite St.deferredFlag, ite_self]; exact ⟨trivial, trivial, fun h => h⟩)
+           | simp [throwCtor])
 
-theorem create_flags (σ : St) (id : Nat) (cs : Int) : (create σ id cs).dirty = σ.dirty := by
+theorem step_flags (b : Bool) (σ : St) : (step b σ).dirty = σ.dirty := (step_flags' b σ).1
+
+theorem create_flags (σ : St) (id : Nat) (cs : Int) : flags (create σ id cs) = flags σ := by
   unfold create
   split
   · rfl
   · split <;> rfl
 
-theorem destroy_flags (σ : St) (id : Nat) : (destroy σ id).dirty = σ.dirty := by
+theorem destroy_flags (σ : St) (id : Nat) : flags (destroy σ id) = flags σ := by
   unfold destroy
   split
   · rfl
@@ -63,17 +123,93 @@ theorem destroy_flags (σ : St) (id : Nat) : (destroy σ id).dirty = σ.dirty :=
 theorem exec_flags (b : Bool) (σ : St) (s : Step) : σ.dirty = true → (exec b σ s).dirty = true := by
   intro h
   cases s with
-  | create id cs => show (create σ id cs).dirty = true; rw [create_flags σ id cs]; exact h
-  | destroy id => show (destroy σ id).dirty = true; rw [destroy_flags σ id]; exact h
+  | create id cs =>
+    show (create σ id cs).dirty = true
+    rw [(flags_eq (create_flags σ id cs)).1]; exact h
+  | destroy id =>
+    show (destroy σ id).dirty = true
+    rw [(flags_eq (destroy_flags σ id)).1]; exact h
   | step => show (step b σ).dirty = true; rw [step_flags b σ]; exact h
   | tick d => exact (tick_flags b σ d).1 h
 
-/-- a statement group that leaves the critical section ends the operation -/
-theorem step_leaves_crit (b : Bool) (σ : St) (h : σ.inCrit = true) (h' : (step b σ).inCrit = false) :
-    (step b σ).pc = .idle := by
+/-- the run is of the repaired code, and `timeout_deferred` can only have been set by a timer
+expiry inside a critical section — for which time must have passed there -/
+structure Cfg (σ : St) : Prop where
+  flag : σ.deferredFlag = true → σ.dirty = true
+  fixed : σ.reschedBug = false
+
+theorem cfg_init : Cfg {} := ⟨fun h => by simp at h, rfl⟩
+
+theorem cfg_exec (b : Bool) {σ : St} (h : Cfg σ) (s : Step) : Cfg (exec b σ s) := by
+  cases s with
+  | create id cs =>
+    have := flags_eq (create_flags σ id cs)
+    exact ⟨fun hh => by show (create σ id cs).dirty = true; rw [this.1]; exact h.flag (by rw [← this.2.1]; exact hh),
+           by show (create σ id cs).reschedBug = false; rw [this.2.2]; exact h.fixed⟩
+  | destroy id =>
+    have := flags_eq (destroy_flags σ id)
+    exact ⟨fun hh => by show (destroy σ id).dirty = true; rw [this.1]; exact h.flag (by rw [← this.2.1]; exact hh),
+           by show (destroy σ id).reschedBug = false; rw [this.2.2]; exact h.fixed⟩
+  | step =>
+    obtain ⟨f1, f2, f3⟩ := step_flags' b σ
+    exact ⟨fun hh => by show (step b σ).dirty = true; rw [f1]; exact h.flag (f3 hh),
+           by show (step b σ).reschedBug = false; rw [f2]; exact h.fixed⟩
+  | tick d =>
+    show Cfg (tick b σ d)
+    unfold tick
+    split
+    · exact h
+    · split
+      · exact ⟨fun hh => by simp [h.flag hh], h.fixed⟩
+      · split
+        · exact ⟨fun hh => by simp [h.flag hh], h.fixed⟩
+        · -- the handler runs
+          have key := fun τ => flags_eq (handlerBody_flags b none τ)
+          unfold handler
+          split
+          · rename_i hc
+            have hc' : σ.inCrit = true := hc
+            split
+            · rename_i hb
+              have : σ.reschedBug = true := hb
+              rw [h.fixed] at this; exact absurd this (by simp)
+            · exact ⟨fun _ => by simp [hc'], h.fixed⟩
+          · refine ⟨fun hh => ?_, ?_⟩
+            · rw [(key _).1]; rw [(key _).2.1] at hh; simp [h.flag hh]
+            · rw [(key _).2.2]; exact h.fixed
+
+/-- a statement group that leaves the critical section ends the operation (no deferred timeout) -/
+theorem step_leaves_crit (b : Bool) (σ : St) (h : σ.inCrit = true) (hdf : σ.deferredFlag = false)
+    (h' : (step b σ).inCrit = false) : (step b σ).pc = .idle := by
+  have hbody : ∀ sync, (handlerBody b sync σ).inCrit = σ.inCrit := by
+    intro sync
+    unfold handlerBody
+    simp only
+    split
+    · rfl
+    · split
+      · rfl
+      · split
+        · unfold setTimerH; split
+          · rfl
+          · split <;> rfl
+        · split <;> rfl
+  have hfin : ∀ (τ : St) (fin : Fin), (finish τ fin).pc = .idle ∧ (finish τ fin).inCrit = τ.inCrit := by
+    intro τ fin; cases fin <;> exact ⟨rfl, rfl⟩
   revert h'
   unfold step
-  split <;> (try simp only [throwCtor]) <;> (repeat' split) <;> simp [h]
+  split
+  case h_7 => intro _; unfold leave; simp only [hdf, Bool.false_eq_true, if_false]; exact (hfin _ _).1
+  case h_14 => intro _; unfold leave; simp only [hdf, Bool.false_eq_true, if_false]; exact (hfin _ _).1
+  case h_16 =>
+    split
+    · simp only
+      split
+      · intro _; exact (hfin _ _).1
+      · intro hh; rw [hbody, h] at hh; exact absurd hh (by simp)
+    · intro _; exact (hfin _ _).1
+  case h_18 => intro _; exact (hfin _ _).1
+  all_goals (try simp only [throwCtor]) <;> (repeat' split) <;> simp [h]
 
 def Inv (σ : St) : Prop :=
   σ.dirty = true ∨ Clock σ ∨ (σ.inCrit = true ∧ ∃ n, Clock (steps false n σ))
@@ -102,7 +238,8 @@ theorem Clock.logDestroyed {σ σ' : St} (h : Clock σ) (id : Nat)
   · rw [hlog]; exact q2
   · rw [hlog, hpend]; exact q3
 
-theorem inv_create {σ : St} (h : Clock σ) (id : Nat) (cs : Int) : Inv (create σ id cs) := by
+theorem inv_create {σ : St} (h : Clock σ) (hdf : σ.deferredFlag = false) (id : Nat) (cs : Int) :
+    Inv (create σ id cs) := by
   by_cases hg : σ.pc ≠ .idle ∨ id ∈ σ.used
   · have : create σ id cs = σ := by unfold create; simp [hg]
     rw [this]; exact Or.inr (Or.inl h)
@@ -123,10 +260,10 @@ theorem inv_create {σ : St} (h : Clock σ) (id : Nat) (cs : Int) : Inv (create 
       right; right
       refine ⟨hcrit, ?_⟩
       cases hr : σ.running
-      · exact ⟨3, clock_create_A h id cs hcs hpc hf hr⟩
+      · exact ⟨3, clock_create_A h id cs hcs hpc hf hr hdf⟩
       · cases hlt : (Time.ofCs cs).lt (getTimer σ)
-        · exact ⟨3, clock_create_B2 h id cs hcs hpc hf hr hlt⟩
-        · exact ⟨4, clock_create_B1 h id cs hcs hpc hf hr hlt⟩
+        · exact ⟨3, clock_create_B2 h id cs hcs hpc hf hr hlt hdf⟩
+        · exact ⟨4, clock_create_B1 h id cs hcs hpc hf hr hlt hdf⟩
 
 theorem inv_destroy {σ : St} (h : Clock σ) (id : Nat) : Inv (destroy σ id) := by
   right; left
@@ -142,7 +279,8 @@ theorem inv_destroy {σ : St} (h : Clock σ) (id : Nat) : Inv (destroy σ id) :=
     · exact h.logDestroyed id rfl rfl rfl rfl rfl rfl rfl rfl rfl rfl rfl
     · exact h.frame (Or.inr ⟨id, rfl⟩) h.notCrit h.noErr rfl rfl rfl rfl rfl rfl rfl ⟨[], rfl, by simp⟩
 
-theorem inv_step_d1 {σ : St} (h : Clock σ) (id : Nat) (hpc : σ.pc = .d1 id) : Inv (step false σ) := by
+theorem inv_step_d1 {σ : St} (h : Clock σ) (hdf : σ.deferredFlag = false) (id : Nat) (hpc : σ.pc = .d1 id) :
+    Inv (step false σ) := by
   right; right
   have hcrit : (step false σ).inCrit = true := by
     unfold step; simp only [hpc]
@@ -155,29 +293,35 @@ theorem inv_step_d1 {σ : St} (h : Clock σ) (id : Nat) (hpc : σ.pc = .d1 id) :
       · rfl
   refine ⟨hcrit, ?_⟩
   cases hp : σ.pending with
-  | nil => exact ⟨1, clock_destroy_nil h id hpc hp⟩
+  | nil => exact ⟨1, clock_destroy_nil h id hpc hp hdf⟩
   | cons e rest =>
     by_cases he : e.id = id
     · cases hrest : rest with
-      | nil => exact ⟨3, clock_destroy_last h id hpc e (by rw [hp, hrest]) he⟩
+      | nil => exact ⟨3, clock_destroy_last h id hpc e (by rw [hp, hrest]) he hdf⟩
       | cons n r' =>
         cases hne : Time.ne false e.deadline n.deadline
-        · exact ⟨1, clock_destroy_eqdl h id hpc e n r' (by rw [hp, hrest]) he hne⟩
-        · exact ⟨4, clock_destroy_rearm h id hpc e n r' (by rw [hp, hrest]) he hne⟩
-    · exact ⟨1, clock_destroy_other h id hpc e rest hp he⟩
+        · exact ⟨1, clock_destroy_eqdl h id hpc e n r' (by rw [hp, hrest]) he hne hdf⟩
+        · exact ⟨4, clock_destroy_rearm h id hpc e n r' (by rw [hp, hrest]) he hne hdf⟩
+    · exact ⟨1, clock_destroy_other h id hpc e rest hp he hdf⟩
 
-theorem inv_exec {σ : St} (h : Inv σ) (s : Step) : Inv (exec false σ s) := by
+theorem inv_exec {σ : St} (hcfg : Cfg σ) (h : Inv σ) (s : Step) : Inv (exec false σ s) := by
+  by_cases hdirty : σ.dirty = true
+  · exact Or.inl (exec_flags false σ s hdirty)
+  have hdf : σ.deferredFlag = false := by
+    cases hh : σ.deferredFlag
+    · rfl
+    · exact absurd (hcfg.flag hh) hdirty
   rcases h with hd | hc | ⟨hcrit, n, hn⟩
-  · exact Or.inl (exec_flags false σ s hd)
+  · exact absurd hd hdirty
   · cases s with
-    | create id cs => exact inv_create hc id cs
+    | create id cs => exact inv_create hc hdf id cs
     | destroy id => exact inv_destroy hc id
     | step =>
       rcases hc.pcOut with hpc | ⟨id, hpc⟩
       · have : step false σ = σ := by unfold step; simp [hpc]
         show Inv (step false σ)
         rw [this]; exact Or.inr (Or.inl hc)
-      · exact inv_step_d1 hc id hpc
+      · exact inv_step_d1 hc hdf id hpc
     | tick d => exact Or.inr (Or.inl (clock_tick hc d))
   · cases n with
     | zero =>
@@ -202,7 +346,7 @@ theorem inv_exec {σ : St} (h : Inv σ) (s : Step) : Inv (exec false σ s) := by
         have hn' : Clock (steps false k (step false σ)) := hn
         show Inv (step false σ)
         cases hc' : (step false σ).inCrit
-        · have hidle := step_leaves_crit false σ hcrit hc'
+        · have hidle := step_leaves_crit false σ hcrit hdf hc'
           rw [steps_idle false k _ hidle] at hn'
           exact Or.inr (Or.inl hn')
         · exact Or.inr (Or.inr ⟨hc', k, hn'⟩)
@@ -213,12 +357,15 @@ theorem inv_exec {σ : St} (h : Inv σ) (s : Step) : Inv (exec false σ s) := by
         · have : tick false σ d = σ := by unfold tick; simp [show d ≤ 0 by omega]
           rw [this]; exact Or.inr (Or.inr ⟨hcrit, k+1, hn⟩)
 
-theorem inv_runFrom (sched : List Step) : ∀ σ, Inv σ → Inv (runFrom false σ sched) := by
+theorem inv_runFrom (sched : List Step) : ∀ σ, Cfg σ → Inv σ → Cfg (runFrom false σ sched) ∧ Inv (runFrom false σ sched) := by
   induction sched with
-  | nil => intro σ h; exact h
-  | cons s l ih => intro σ h; exact ih _ (inv_exec h s)
+  | nil => intro σ hc h; exact ⟨hc, h⟩
+  | cons s l ih => intro σ hc h; exact ih _ (cfg_exec false hc s) (inv_exec hc h s)
 
 theorem inv_run (sched : List Step) : Inv (run false sched) :=
-  inv_runFrom sched {} (Or.inr (Or.inl clock_init))
+  (inv_runFrom sched {} cfg_init (Or.inr (Or.inl clock_init))).2
+
+theorem cfg_run (sched : List Step) : Cfg (run false sched) :=
+  (inv_runFrom sched {} cfg_init (Or.inr (Or.inl clock_init))).1
 
 end PPLV.Watchdog
